@@ -592,8 +592,8 @@ impl Prop for CliRejects {
 
     fn runs(&self, tier: Tier) -> u64 {
         match tier {
-            Tier::Quick => 2_400,
-            Tier::Thorough => 48_000,
+            Tier::Quick => 12_000,
+            Tier::Thorough => 240_000,
         }
     }
 
